@@ -70,6 +70,11 @@ Fixpoint get (k : string) (e : event) : option value :=
   | (k', v) :: r => if String.eqb k k' then Some v else get k r
   end.
 Definition has (k : string) (e : event) : bool := match get k e with Some _ => true | None => false end.
+Fixpoint del (k : string) (e : event) : event :=
+  match e with
+  | [] => []
+  | (k', v') :: r => if String.eqb k k' then r else (k', v') :: del k r
+  end.
 Fixpoint put (k : string) (v : value) (e : event) : event :=
   match e with
   | [] => [(k, v)]
@@ -300,8 +305,19 @@ Fixpoint remove_first (x : string) (l : list string) : list string :=
 
 Definition sym_of (v : value) : string := match v with VSym s => s | _ => "" end.
 
-(* ServerKeys._get_msg_params (msg_params not given, not playing): (event after the call, params) *)
+(* msg_params = self('msg_params'); "if not msg_params or self('is_playing')": a non-empty list given by the user (or
+   left by an earlier play) is used as it is only while the event has not been played *)
+Definition cached_params K (e : event) : option (list (string * num)) :=
+  match get "msg_params" e with
+  | Some (VParams (p :: l)) => if truthy (plain K e "is_playing") then None else Some (p :: l)
+  | _ => None
+  end.
+
+(* ServerKeys._get_msg_params: (event after the call, params) *)
 Definition get_msg_params K (lib : synthlib) (e : event) : event * list (string * num) :=
+  match cached_params K e with
+  | Some ps => (e, ps)
+  | None =>
   match lib_at (sym_of (ev_call K e "instrument")) lib with
   | None =>
       let ps := [("freq", vnum (ev_call K e "freq")); ("amp", vnum (ev_call K e "amp"));
@@ -313,6 +329,7 @@ Definition get_msg_params K (lib : synthlib) (e : event) : event * list (string 
                    else d_controls d in
       let ps := flat_map (fun a => if has a e1 then [(a, vnum (ev_call K e1 a))] else []) names in
       (put "msg_params" (VParams ps) e1, ps)
+  end
   end.
 
 Definition action_number (v : value) : Z :=
@@ -341,6 +358,28 @@ Definition play_note K lib (lat now : Q) (node : nat) (e : event) : list bundle 
   if truthy (ev_call K e2 "send_gate")
   then [snew; (stamp now (lat + toQ (vnum (ev_call K e2 "sustain"))), MSet node [("gate", I 0)])]
   else [snew].
+
+(* the event object after NoteEvent.play: freq, synth_desc/has_gate/msg_params, instrument, server, node_id, group,
+   is_playing are written into it *)
+Definition play_note_upd K lib (node : nat) (e : event) : event :=
+  let e1 := put "freq" (VNum (detuned_freq K e)) e in
+  let '(e2, ps) := get_msg_params K lib e1 in
+  let e3 := put "instrument" (VSym (sym_of (ev_call K e2 "instrument"))) e2 in
+  let e4 := put "node_id" (VNum (I (Z.of_nat node))) e3 in
+  let e5 := put "group" (VNum (vnum (ev_call K e4 "group"))) e4 in
+  put "is_playing" (VBool true) e5.
+
+(* one event OBJECT used several times from a routine: played, changed, played again, copied (a copy has the same
+   keys: nothing to do in the model) *)
+Inductive eop := EPlay | ESet (k : string) (v : value) | EDel (k : string) | EWait (t : Q).
+Fixpoint run_eops K lib (lat now : Q) (n : nat) (e : event) (ops : list eop) : list bundle :=
+  match ops with
+  | [] => []
+  | EPlay :: r => play_note K lib lat now (2 * n) e ++ run_eops K lib lat now (S n) (play_note_upd K lib (2 * n) e) r
+  | ESet k v :: r => run_eops K lib lat now n (put k v e) r
+  | EDel k :: r => run_eops K lib lat now n (del k e) r
+  | EWait t :: r => run_eops K lib lat (now + t) n e r
+  end.
 
 (* _MonoOnEvent._prepare_event(instrument) with node id = node *)
 Definition mono_prepare K lib (instr : string) (node : nat) (e : event) : event :=
@@ -771,6 +810,8 @@ Definition keys_ok K (e : event) (l : list (string * nat * num)) : bool :=
 (* one pattern case: the model's score, ids renamed by first appearance, against the implementation's *)
 Definition pat_ok c K lib lat fuel depth p proto start (impl : list bundle) : bool :=
   score_close (canon_score [] (score_of (sends c K lib lat fuel depth p proto start))) impl.
+Definition replay_ok K lib lat start (e : event) (ops : list eop) (impl : list bundle) : bool :=
+  score_close (canon_score [] (score_of (run_eops K lib lat start 0 e ops))) impl.
 Definition pat_ok_c c K lib lat fuel depth ct p proto start (impl : list bundle) : bool :=
   score_close (canon_score [] (score_of (sends_c c K lib lat fuel depth ct p proto start))) impl.
 Definition the_lib : synthlib :=
